@@ -27,7 +27,10 @@ pub static DEF: CheckDef = CheckDef {
            (2^depth paths); diamond: nested diamonds; fanin: 2..16 products summed; builtin: random built-in programs \
            observed through the hook trace (coverage only). Per pass: every reachable operation node's closure is \
            invoked exactly once, after all its consumers, with seed == reference adjoint; unreachable nodes never; \
-           total invocations == reachable nodes. Non-trivial = some node has >= 2 consumers in the differentiated \
+           total invocations == reachable nodes; 1..2 further passes over the same graph with the same seed handle must \
+           invoke every closure once more with the same adjoint; once per worker a scaling probe (thread CPU time of a \
+           pass over self-products / stacked diamonds / skip connections of depth 8 vs 18: nodes x2.25, paths x1024, \
+           allowed x100) decides 'work proportional to nodes, not paths' without a deadline. Non-trivial = some node has >= 2 consumers in the differentiated \
            graph; distinct = distinct (program text).",
     floors,
     exhaustive: |t| Some(if t == Tier::Thorough {
@@ -59,7 +62,7 @@ fn families(t: Tier) -> Vec<(&'static str, u64)> {
     ]
 }
 fn floors(_t: Tier) -> Vec<(&'static str, u64)> {
-    vec![("evaluations", 25_000), ("closure_invocations_logged", 60_000), ("adjoints_compared", 60_000), ("passes_monitored", 25_000), ("builtin_closure_calls_traced", 2_500)]
+    vec![("evaluations", 25_000), ("closure_invocations_logged", 60_000), ("adjoints_compared", 60_000), ("passes_monitored", 25_000), ("builtin_closure_calls_traced", 2_500), ("repeat_passes_monitored", 25_000), ("scaling_probes_measured", 3)]
 }
 
 fn topo_program(mut idx: u64, n_ops: usize, mask: usize, r: &mut Rng) -> Program {
@@ -244,7 +247,7 @@ pub fn run_case(ctx: &mut Ctx, fam: &str, k: u64, r: &mut Rng) {
     };
     let root = p.root();
     let od = rr.vals[root].dims.clone();
-    let seed = if fam == "selfchain" { SeedMode::Omitted } else { rand_seed(r, numel(&od)) };
+    let seed = if fam == "selfchain" { if k % 2 == 0 { SeedMode::Omitted } else { SeedMode::Ones } } else { rand_seed(r, numel(&od)) };
     let seedv = seed.values(numel(&od));
     let reach = reachable_from(&p, root);
     // expected invocations: reachable operation nodes that recorded at least one tracked operand
@@ -287,8 +290,21 @@ pub fn run_case(ctx: &mut Ctx, fam: &str, k: u64, r: &mut Rng) {
             return;
         }
     };
+    if let Some(v) = scaling_probe() {
+        // a pass whose cost grows with the number of paths: report it instead of timing out in the deep cases
+        ctx.violation(&format!("C11|scaling|{}", v.0), v.1.clone());
+        return;
+    }
+    PROBE_RATIO.with(|pr| {
+        for (name, ratio) in pr.borrow_mut().drain(..) {
+            ctx.count("scaling_probes_measured", 1);
+            ctx.fmax(&format!("pass cpu time depth 18 / depth 8 / allowed 100x ({})", name), ratio / 100.0);
+        }
+    });
+    // the caller keeps its seed array and hands the same handle to every pass over this graph
+    let seed_arr = seed.array(&od);
     invlog_reset(true);
-    let res = guard(|| arrays[root].backward(seed.array(&od)));
+    let res = guard(|| arrays[root].backward(seed_arr.clone()));
     let (log, tripped) = invlog_take();
     invlog_reset(false);
     ctx.count("passes_monitored", 1);
@@ -387,4 +403,113 @@ pub fn run_case(ctx: &mut Ctx, fam: &str, k: u64, r: &mut Rng) {
         }
     }
     ctx.hist("invocations_per_pass", &format!("{:02}", log.len().min(64)));
+    // every further pass over the same graph (same seed handle) is a pass like the first: each closure once more, with
+    // the same complete adjoint
+    let repeats = if fam == "topo" { 1 } else { 2 };
+    for rep in 0..repeats {
+        invlog_reset(true);
+        let res = guard(|| arrays[root].backward(seed_arr.clone()));
+        let (log2, tripped) = invlog_take();
+        invlog_reset(false);
+        ctx.count("repeat_passes_monitored", 1);
+        ctx.count("closure_invocations_logged", log2.len() as u64);
+        if let Some(node) = tripped {
+            ctx.violation(&format!("C11|{}|repeat-pass|closure-invoked-twice", fam), format!("pass {} over the same graph: derivative closure of n{} was invoked a second time in one pass\nprogram: {}", rep + 2, node, p.pretty()));
+            return;
+        }
+        if let Err(m) = res {
+            ctx.violation(&format!("C11|{}|repeat-pass|bwd-panic:{}", fam, panic_class(&m)), format!("pass {} over the same graph panicked: {}\nprogram: {}", rep + 2, m, p.pretty()));
+            return;
+        }
+        let key = |l: &Vec<Invocation>| -> Vec<(usize, Vec<usize>, Vec<u64>)> {
+            let mut v: Vec<(usize, Vec<usize>, Vec<u64>)> = l.iter().map(|e| (e.node, e.seed_dims.clone(), e.seed.iter().map(|x| (x + 0.0).to_bits()).collect())).collect();
+            v.sort();
+            v
+        };
+        let (k1, k2) = (key(&log), key(&log2));
+        if k1.len() != k2.len() || k1.iter().zip(&k2).any(|(a, b)| a.0 != b.0) {
+            ctx.violation(
+                &format!("C11|{}|repeat-pass|invocation-count", fam),
+                format!("pass {} over the same graph with the same seed handle invoked {} derivative closures, the first pass {} (each reachable node must be evaluated once per pass)\nprogram: {}\nseed: {:?}", rep + 2, log2.len(), log.len(), p.pretty(), seed),
+            );
+            return;
+        }
+        if !kink && exact && k1 != k2 {
+            ctx.violation(&format!("C11|{}|repeat-pass|adjoint-differs", fam), format!("pass {} over the same graph delivered different adjoints to the closures than the first pass\nprogram: {}\nseed: {:?}", rep + 2, p.pretty(), seed));
+            return;
+        }
+    }
+}
+
+fn thread_cpu_ns() -> u64 {
+    #[repr(C)]
+    struct Ts {
+        sec: i64,
+        nsec: i64,
+    }
+    extern "C" {
+        fn clock_gettime(clk: i32, ts: *mut Ts) -> i32;
+    }
+    let mut t = Ts { sec: 0, nsec: 0 };
+    // CLOCK_THREAD_CPUTIME_ID: CPU time of this thread only - waiting for a core on a loaded machine does not count
+    let rc = unsafe { clock_gettime(3, &mut t) };
+    if rc != 0 {
+        return 0;
+    }
+    t.sec as u64 * 1_000_000_000 + t.nsec as u64
+}
+
+/// "Work proportional to nodes and edges, not paths", decided on logical size instead of a deadline: thread CPU time
+/// of one pass over a self-product chain / stacked diamonds of depth 8 and of depth 18 (minimum of 5 fresh graphs
+/// each). Nodes grow 2.25x, paths 1024x. Reported when the deeper pass costs more than 100x the shallower one (and more
+/// than 2 ms). Evaluated once per worker, before any deep case runs.
+fn scaling_probe() -> &'static Option<(String, String)> {
+    use std::sync::OnceLock;
+    static PROBE: OnceLock<Option<(String, String)>> = OnceLock::new();
+    PROBE.get_or_init(|| {
+        if cfg!(miri) {
+            return None;
+        }
+        let measure = |shape: usize, depth: usize| -> u64 {
+            let mut best = u64::MAX;
+            for _ in 0..5 {
+                let x = arr(&[2], &[1.0, -1.0]).tracked();
+                let y = arr(&[2], &[1.0, 1.0]).tracked();
+                let mut cur = x.clone();
+                for _ in 0..depth {
+                    cur = match shape {
+                        0 => &cur * &cur,
+                        1 => {
+                            let s = &cur + &y;
+                            &(&s * &s) + &s
+                        }
+                        _ => {
+                            let a = cur.reshape(vec![2]);
+                            &(&cur + &a) + &cur
+                        }
+                    };
+                }
+                let t0 = thread_cpu_ns();
+                cur.backward(None);
+                let t1 = thread_cpu_ns();
+                best = best.min(t1.saturating_sub(t0));
+            }
+            best
+        };
+        for (shape, name) in [(0usize, "self-products"), (1, "stacked-diamonds"), (2, "skip-connections")] {
+            let small = measure(shape, 8).max(2_000);
+            let big = measure(shape, 18);
+            PROBE_RATIO.with(|p| p.borrow_mut().push((name, big as f64 / small as f64)));
+            if big > 100 * small && big > 2_000_000 {
+                return Some((
+                    format!("{}|pass-cost-grows-with-paths", name),
+                    format!("one pass over {} of depth 18 took {} ns of thread CPU time, depth 8 took {} ns: nodes and edges grow 2.25x, paths 1024x (allowed: 100x)", name, big, small),
+                ));
+            }
+        }
+        None
+    })
+}
+thread_local! {
+    static PROBE_RATIO: RefCell<Vec<(&'static str, f64)>> = RefCell::new(vec![]);
 }
